@@ -130,3 +130,107 @@ Proof.
   eapply N.le_trans; [|apply cloop_alloc_mono].
   cbn [alloc]. rewrite elem_size_repeat_str. lia.
 Qed.
+
+(* ---------- the primitive readers ---------- *)
+
+Lemma ctake_spec n bs :
+  ctake n bs = CErr \/ exists d r, ctake n bs = COk d r /\ len r + N.of_nat n = len bs.
+Proof.
+  unfold ctake. destruct (Nat.ltb (List.length bs) n) eqn:Hlt; [left; reflexivity|right].
+  apply Nat.ltb_ge in Hlt. exists (firstn n bs), (skipn n bs). split; [reflexivity|].
+  unfold len. rewrite skipn_length. lia.
+Qed.
+
+Lemma cnum_spec w bs :
+  cnum w bs = CErr \/ exists n r, cnum w bs = COk n r /\ len r + N.of_nat w = len bs.
+Proof.
+  unfold cnum. destruct (ctake_spec w bs) as [He|[d [r [He Hl]]]]; rewrite He; [left; reflexivity|right].
+  exists (unle d), r. split; [reflexivity|exact Hl].
+Qed.
+
+(* what one run costs and consumes, by outcome *)
+Definition paid (mw : N) (bs : bytes) (rc : cres unit * cost) : Prop :=
+  iters (snd rc) = 0 /\
+  match fst rc with
+  | COk _ rest => alloc (snd rc) + mw + len rest <= len bs
+  | CErr => alloc (snd rc) <= MaxStringSize
+  | _ => False
+  end.
+
+Lemma cstr_spec bs :
+  iters (snd (cstr bs)) = 0 /\
+  match fst (cstr bs) with
+  | COk _ rest => alloc (snd (cstr bs)) + 4 + len rest <= len bs
+  | CErr => alloc (snd (cstr bs)) <= MaxStringSize
+  | _ => False
+  end.
+Proof.
+  unfold cstr. destruct (cnum_spec 4 bs) as [He|[n [r [He Hl]]]]; rewrite He.
+  - cbn [fst snd czero alloc iters]. split; [reflexivity|]. unfold MaxStringSize. lia.
+  - destruct (n =? 0) eqn:Hz.
+    + cbn [fst snd czero alloc iters]. split; [reflexivity|lia].
+    + destruct (MaxStringSize <? n) eqn:Hmax.
+      * cbn [fst snd czero alloc iters]. split; [reflexivity|]. unfold MaxStringSize. lia.
+      * cbn [fst snd alloc iters]. split; [reflexivity|].
+        destruct (ctake_spec (N.to_nat n) r) as [Ht|[d [r' [Ht Hl']]]]; rewrite Ht; lia.
+Qed.
+
+Lemma cdec_scalar pol neg s bs budget :
+  paid (N.of_nat (min_width (TS s))) bs (cdec pol neg (TS s) bs budget).
+Proof.
+  assert (Htake : forall w, paid (N.of_nat w) bs
+            (match ctake w bs with COk _ r => COk tt r | CErr => CErr | CPanic => CPanic | CBudget => CBudget end, czero)).
+  { intro w. unfold paid. cbn [fst snd czero alloc iters]. split; [reflexivity|].
+    destruct (ctake_spec w bs) as [Ht|[d [r [Ht Hl]]]]; rewrite Ht; [unfold MaxStringSize|]; lia. }
+  assert (Herr : forall mw, paid mw bs (@CErr unit, czero)).
+  { intro mw. unfold paid. cbn [fst snd czero alloc iters]. split; [reflexivity|]. unfold MaxStringSize. lia. }
+  destruct s; cbn [cdec scalar_width min_width]; try apply Htake; try apply Herr.
+  (* string; void is Htake 0 *)
+  pose proof (cstr_spec bs) as [Hi Ha]. destruct (cstr bs) as [r c]. cbn [fst snd] in Hi, Ha.
+    unfold paid. cbn [fst snd]. split; [exact Hi|].
+    destruct r as [u rest| | |]; exact Ha.
+Qed.
+
+(* ---------- 1. no panic with the negative-length repair ---------- *)
+
+Lemma cloop_no_panic {A} (p : bytes -> N -> cres A * cost) :
+  (forall b bud, fst (p b bud) <> CPanic) ->
+  forall fuel n bs budget acc, fst (cloop p fuel n bs budget acc) <> CPanic.
+Proof.
+  intros Hp fuel. induction fuel as [|f IH]; intros n bs budget acc; cbn [cloop].
+  - destruct (n =? 0); [cbn; discriminate|]. destruct (budget =? 0); cbn; discriminate.
+  - destruct (n =? 0); [cbn; discriminate|]. destruct (budget =? 0); [cbn; discriminate|].
+    pose proof (Hp bs (budget - 1)) as Hp1. destruct (p bs (budget - 1)) as [r c].
+    destruct r as [a rest| | |]; cbn [fst] in *; try discriminate; [apply IH|congruence].
+Qed.
+
+Lemma gate_fail_no_panic pol n : gate_fail pol false n <> CPanic.
+Proof. unfold gate_fail. destruct pol; try discriminate. rewrite andb_false_r. discriminate. Qed.
+
+Lemma cgo_no_panic pol ts :
+  Forall (fun t => forall bs budget, fst (cdec pol false t bs budget) <> CPanic) ts ->
+  forall b bud acc, fst (cgo pol false ts b bud acc) <> CPanic.
+Proof.
+  intro HF. induction HF as [|t' l Ht HF IH]; intros b bud acc; cbn [cgo]; [cbn; discriminate|].
+  pose proof (Ht b bud) as Ht1. destruct (cdec pol false t' b bud) as [r c].
+  destruct r as [u b'| | |]; cbn [fst] in *; try discriminate; [apply IH|congruence].
+Qed.
+
+Theorem cdec_no_panic : forall pol t bs budget, fst (cdec pol false t bs budget) <> CPanic.
+Proof.
+  intros pol t. induction t as [s|t' IH|tk tv IHk IHv|ts IH|name fs IH] using ty_ind2; intros bs budget.
+  - pose proof (cdec_scalar pol false s bs budget) as [_ H]. intro E. rewrite E in H. exact H.
+  - rewrite cdec_list. destruct (cnum_spec 4 bs) as [He|[n [r [He Hl]]]]; rewrite He; [cbn; discriminate|].
+    destruct (count_gate pol n (elem_size t')) as [a|]; [|apply gate_fail_no_panic].
+    apply cloop_no_panic. exact IH.
+  - rewrite cdec_map. destruct (cnum_spec 4 bs) as [He|[n [r [He Hl]]]]; rewrite He; [cbn; discriminate|].
+    match goal with |- context [if ?c then _ else _] => destruct c end; [cbn; discriminate|].
+    destruct (count_gate pol n (elem_size tk + elem_size tv + 8)) as [a|]; [|apply gate_fail_no_panic].
+    apply cloop_no_panic. intros b bud. unfold cpair.
+    pose proof (IHk b bud) as Hk. destruct (cdec pol false tk b bud) as [r1 c1].
+    destruct r1 as [u b'| | |]; cbn [fst] in *; try discriminate; [|congruence].
+    pose proof (IHv b' (bud - iters c1)) as Hv. destruct (cdec pol false tv b' (bud - iters c1)) as [r2 c2].
+    exact Hv.
+  - rewrite cdec_tuple. apply cgo_no_panic. exact IH.
+  - rewrite cdec_struct. apply cgo_no_panic. apply Forall_map. exact IH.
+Qed.
